@@ -278,6 +278,16 @@ var curTrust = "meta1"
 
 var curNoise uint64
 
+// idpTrusted: the configuration of the case being judged trusts the key the harness signs with.
+func idpTrusted() bool {
+	for _, k := range spkit.TrustedKeys(curTrust) {
+		if k == "idp" {
+			return true
+		}
+	}
+	return false
+}
+
 func newSP() *saml.ServiceProvider {
 	sp := spkit.NewSP(spkit.Config{Trust: curTrust})
 	spkit.Noise(sp, curNoise)
@@ -759,7 +769,7 @@ func checkBytes(c Case) pbt.Result {
 	}
 	if c.Framing == "valid-bomb" {
 		res.Classes = append(res.Classes, fmt.Sprintf("valid-bomb:%dMiB", c.BombMiB))
-		if c.BombMiB <= 8 && r.err != nil && c.Container == "" {
+		if c.BombMiB <= 8 && r.err != nil && c.Container == "" && idpTrusted() {
 			res.Err = fmt.Sprintf("harness sanity: %s refused an otherwise valid message inflating to %d bytes (below the 10 MiB limit): %v", c.API, inflated, privateOf(r.err))
 			return res
 		}
@@ -1101,7 +1111,7 @@ func checkArtifact(c Case) pbt.Result {
 				return ok200(good(issued))
 			}
 		})
-		if fault == "good" && !o.Accepted() {
+		if fault == "good" && !o.Accepted() && idpTrusted() {
 			res.Err = fmt.Sprintf("harness sanity: a correct artifact response was rejected: %s", o.Describe())
 			return res
 		}
